@@ -142,6 +142,9 @@ def verdict(prop, tier, obls, known):
 
 
 def main():
+    if len(sys.argv) >= 2 and sys.argv[1] == "benign":
+        import benign
+        sys.exit(benign.main(sys.argv[2:]))
     if len(sys.argv) >= 2 and sys.argv[1] == "selftest":
         import selftest
         sys.exit(selftest.main(sys.argv[2:]))
